@@ -1179,7 +1179,7 @@ pub fn run_thread<M: AlignMarker>(tid: usize, world: &'static World<M>, prog: &T
 /// Body of the janitor thread (runs alone after every other thread has exited): release the
 /// shared cells, then pin/flush/unpin until the shadow model sees everything reclaimed.
 pub fn run_janitor<M: AlignMarker>(tid: usize, world: &'static World<M>, max_rounds: u64) -> u64 {
-    let _ = tid;
+    sim().threads[tid].at_boundary = false;
     {
         let g = circ::cs();
         for c in &world.roots {
